@@ -1,0 +1,17 @@
+//go:build !verif
+
+package leveldb
+
+// Verification hooks; compiled to nothing unless built with -tags verif.
+
+func verifTrace(s *session, ev string, a ...int64) {}
+
+func verifGate(s *session, point string) {}
+
+func verifSetVersion(s *session, r *sessionRecord, old, nv *version) {}
+
+func verifRef(s *session, kind string, vid int64, files []tFiles, d *vDelta) {}
+
+func verifCompaction(db *DB, c *compaction, minSeq uint64, trivial bool) {}
+
+func verifB(b bool) int64 { return 0 }
